@@ -12,7 +12,7 @@ import (
 func init() {
 	ccVirtual = true
 	ccNow = vtime.Now
-	ccUnit = time.Millisecond
+	ccUnit = time.Microsecond                // delays such as 900us and 1900us are not whole milliseconds
 	ccEnable = func() { vtime.Enable(true) } // auto-advance: a wait moves the clock itself
-	ccTick = func(d int) { vtime.Advance(time.Duration(d) * time.Millisecond) }
+	ccTick = func(d int) { vtime.Advance(time.Duration(d) * time.Microsecond) }
 }
